@@ -341,6 +341,11 @@ func (e *enc) call(st *State, c *ssa.CallCommon, ins ssa.Instruction, pos token.
 	sig := c.Signature()
 	var results []string
 	pureTerms := e.pureCallTerms(st, c, fn, args)
+	if fn != nil && externKeyOf(fn) == "fmt.Sprint" {
+		if t, ok := e.sprintTerm(c); ok {
+			pureTerms = []string{t}
+		}
+	}
 	for j := 0; j < sig.Results().Len(); j++ {
 		rt := sig.Results().At(j).Type()
 		n := e.fresh(fmt.Sprintf("r_%s_%d", sanitize(site), j), sortOf(rt))
@@ -799,6 +804,89 @@ func (e *enc) siteOrdinal(ins ssa.Instruction, short string) int {
 	}
 	e.callOcc[short]++
 	return 1000 + e.callOcc[short]
+}
+
+// varargsOperands recovers the operands stored into the varargs array of a variadic call
+// (a := new [n]T (varargs); a[i] = x_i; f(a[:])).
+func varargsOperands(arg ssa.Value) ([]ssa.Value, bool) {
+	sl, ok := stripVal(arg).(*ssa.Slice)
+	if !ok {
+		return nil, false
+	}
+	al, ok := sl.X.(*ssa.Alloc)
+	if !ok {
+		return nil, false
+	}
+	at, ok := al.Type().Underlying().(*types.Pointer).Elem().Underlying().(*types.Array)
+	if !ok {
+		return nil, false
+	}
+	ops := make([]ssa.Value, at.Len())
+	for _, r := range *al.Referrers() {
+		ia, ok := r.(*ssa.IndexAddr)
+		if !ok {
+			continue
+		}
+		k, isC := constInt(ia.Index)
+		if !isC || !k.IsInt64() || k.Int64() < 0 || k.Int64() >= at.Len() {
+			return nil, false
+		}
+		for _, rr := range *ia.Referrers() {
+			if s, ok := rr.(*ssa.Store); ok && s.Addr == ia {
+				if ops[k.Int64()] != nil {
+					return nil, false
+				}
+				ops[k.Int64()] = s.Val
+			}
+		}
+	}
+	for _, o := range ops {
+		if o == nil {
+			return nil, false
+		}
+	}
+	return ops, true
+}
+
+// sprintTerm models fmt.Sprint over string and integer operands as concatenation (integers through
+// the uninterpreted decimal rendering dec(n)). fmt.Sprint inserts a space only between two
+// adjacent non-string operands, a shape that is not modelled.
+func (e *enc) sprintTerm(c *ssa.CallCommon) (string, bool) {
+	if len(c.Args) != 1 {
+		return "", false
+	}
+	ops, ok := varargsOperands(c.Args[0])
+	if !ok || len(ops) == 0 {
+		return "", false
+	}
+	var parts []string
+	prevStr := true
+	for _, o := range ops {
+		mi, ok := stripVal(o).(*ssa.MakeInterface)
+		if !ok {
+			return "", false
+		}
+		t := mi.X.Type()
+		switch {
+		case isString(t):
+			parts = append(parts, e.val(mi.X))
+			prevStr = true
+		case isInteger(t):
+			if !prevStr {
+				return "", false
+			}
+			e.declareFun("dec", "(Int) Str")
+			parts = append(parts, fmt.Sprintf("(dec %s)", e.val(mi.X)))
+			prevStr = false
+		default:
+			return "", false
+		}
+	}
+	r := parts[0]
+	for _, p := range parts[1:] {
+		r = fmt.Sprintf("(strcat %s %s)", r, p)
+	}
+	return r, true
 }
 
 // sendOrdinal numbers the sends on one channel expression in source order.
